@@ -1,8 +1,10 @@
 //! E1 — byte-stream simulator checks.
 simkit::interpose_getrandom!();
 
+mod c14;
+mod c15;
 mod c57;
 
 fn main() {
-    simkit::main_with(vec![c57::check()]);
+    simkit::main_with(vec![c14::check(), c15::check(), c57::check()]);
 }
